@@ -193,6 +193,73 @@ def _task(task):
     return t
 
 
+def _long_sized_task(task):
+    """Longer streams for the sized sources only (no schedule to explore, so they are cheap): every sequence of 4 palette packets and
+    homogeneous / alternating sequences of up to 12 packets, with more prefix lengths.  Byte accounting that only goes wrong when
+    some running total coincides with the source length needs several packets to line up."""
+    import space_packet_parser.packets as real
+    t = Tally()
+    pal = framing.palette_packets()
+    with owned_clock():
+        for seq in task["seqs"]:
+            expected = [pal[i] for i in seq]
+            for k in task["ks"]:
+                stream = framing.build_stream(expected, k)
+                for entry in ("ccsds", "pg"):
+                    for kind, r in (("bytes", None), ("bytesio", None), ("bytesio", 1), ("bytesio", 5), ("bytesio", 64), ("bytesio", len(stream))):
+                        if entry == "pg" and r not in (None, 5):
+                            continue
+                        try:
+                            with case_alarm(20):
+                                bad = _sized_run(entry, real, stream if kind == "bytes" else CountingBytesIO(stream), r, k, expected)
+                        except CaseTimeout:
+                            bad = {"end": "timeout"}
+                        t.evals += 1
+                        t.traces += 1
+                        t.outcomes["long-sized:" + ("ok" if bad is None else "mismatch")] += 1
+                        if bad:
+                            t.violation({"kind": "framing-mismatch", "source": kind, "long": True},
+                                        {"seq": list(seq), "k": k, "entry": entry, "threshold": None, "source": kind, "r": r},
+                                        expected=len(expected), observed=bad, note="a longer stream is framed differently from a sized source")
+                # file-like sources handed over at a non-zero position: an in-memory file and a real file are the same kind of
+                # source, so whatever the framer does with the position it must do for both (differential oracle only)
+                if len(seq) <= 4:
+                    import io
+                    path = os.path.join(task["work"], f"c02p_{os.getpid()}.bin")
+                    with open(path, "wb") as f:
+                        f.write(stream)
+                    for pos in sorted({1, 6, k + 7, len(stream)} if stream else ()):
+                        if pos > len(stream):
+                            continue
+                        for r in (None, 5):
+                            obs = []
+                            for kind in ("bytesio", "file"):
+                                try:
+                                    with case_alarm(20):
+                                        if kind == "bytesio":
+                                            src = io.BytesIO(stream)
+                                            src.seek(pos)
+                                            items, end = pull(_make_gen("ccsds", real, src, r, k), horizon=len(expected) + 3)
+                                        else:
+                                            with open(path, "rb") as src:
+                                                src.seek(pos)
+                                                items, end = pull(_make_gen("ccsds", real, src, r, k), horizon=len(expected) + 3)
+                                    obs.append(([bytes(i).hex() for i in items], end))
+                                except CaseTimeout:
+                                    obs.append(([], "timeout"))
+                            t.evals += 2
+                            t.traces += 2
+                            t.outcomes["positioned:" + ("same" if obs[0] == obs[1] else "differ")] += 1
+                            if obs[0] != obs[1]:
+                                t.violation({"kind": "source-kinds-disagree", "history": "file-like source handed over at a non-zero position"},
+                                            {"seq": list(seq), "k": k, "entry": "ccsds", "threshold": None, "source": "positioned", "r": r, "pos": pos},
+                                            expected={"file": obs[1]}, observed={"bytesio": obs[0]},
+                                            note="io.BytesIO and a real file at the same position are framed differently")
+                    os.unlink(path)
+            t.nontrivial += 1
+    return t
+
+
 def _big_task(task):
     """The literal 20 MB threshold reached for real, and a maximum-size packet."""
     import space_packet_parser.packets as real
@@ -297,6 +364,12 @@ def run(ctx):
     if not ctx.quick:
         big.append({"kind": "trim21mb", "k": 4, "tier": ctx.tier})
     tally.merge(fan_out(_big_task, big, jobs=min(4, ctx.jobs or 4), mem_gib=None))
+    import itertools
+    long_seqs = [tuple(sq) for sq in itertools.product(range(3), repeat=4)]
+    for n in range(5, 13):
+        long_seqs += [(j,) * n for j in range(3)] + [tuple((j + i) % 3 for i in range(n)) for j in range(3)] + [tuple((0, 2)[i % 2] for i in range(n))]
+    from mc.kernel import chunked
+    tally.merge(fan_out(_long_sized_task, [{"seqs": ch, "ks": [0, 1, 2, 3, 4, 7], "work": ctx.work} for ch in chunked(long_seqs, 32)], jobs=ctx.jobs, seed=ctx.seed))
     max_len = 3 if ctx.quick else 4
     coverage = {
         "states": tally.states,
@@ -308,7 +381,9 @@ def run(ctx):
                   f"{'0,1,4' if ctx.quick else '0..7'}; bytes; BytesIO and real file with every read size None,1..L+1; "
                   "scripted socket with read sizes {None,1,2,3,5,6,7,8,L} x EVERY fragmentation (state-hashed DFS); "
                   "both entry points; trim literal rewritten to {0,5,17} and reached for real with a 21 MB stream; "
-                  "max-size packet; stateless cross-check of the state merging on short streams"),
+                  "max-size packet; stateless cross-check of the state merging on short streams; sized sources (bytes, BytesIO with 5 read sizes) additionally on "
+                  "every 4-packet sequence and on homogeneous/alternating sequences of 5..12 packets with prefix lengths 0,1,2,3,4,7; "
+                  "io.BytesIO vs real file handed over at positions {1, 6, k+7, L} (4-packet sequences, differential)"),
         "rule": ("a case is one (packet sequence, prefix length) pair explored under every source configuration; "
                  "non-trivial = sequences with >= 2 packets (a packet boundary exists inside the stream) plus the big-stream runs"),
     }
@@ -333,6 +408,21 @@ def replay(case):
             return None
         entry = case["entry"]
         src_kind = case["source"]
+        if src_kind == "positioned":
+            import io, tempfile
+            a = io.BytesIO(stream)
+            a.seek(case["pos"])
+            oa = pull(_make_gen("ccsds", pkmod, a, case.get("r"), k), horizon=len(expected) + 3)
+            with tempfile.TemporaryFile() as f:
+                f.write(stream)
+                f.flush()
+                f.seek(case["pos"])
+                ob = pull(_make_gen("ccsds", pkmod, f, case.get("r"), k), horizon=len(expected) + 3)
+            oa, ob = ([bytes(i).hex() for i in oa[0]], oa[1]), ([bytes(i).hex() for i in ob[0]], ob[1])
+            if oa != ob:
+                return {"sig": {"kind": "source-kinds-disagree", "history": "file-like source handed over at a non-zero position"},
+                        "case": case, "observed": {"bytesio": oa, "file": ob}}
+            return None
         if src_kind in ("bytes", "bytesio", "file"):
             src = stream if src_kind == "bytes" else CountingBytesIO(stream)
             bad = _sized_run(entry, pkmod, src, case.get("r"), k, expected)
